@@ -12,8 +12,9 @@ builder and against the oracle.
 
 Operands: `Frag true` — paths over the twelve axes whose start and steps may carry boolean-valued
 predicates (as in C02).  Hypotheses: well-formed document, valid context node, navigator exposing
-namespace URIs, NoFnvCollision (`HashInj`; discharged structurally by `key_injective` up to the
-64-bit FNV hash of the rendered key).
+namespace URIs, `HashInj` (the node key union de-duplicates with is injective — since the repair of
+`getNodeKey` the engine compares the key STRINGS and this is a theorem: `PathSem.hashInj_holds`, used by
+the `_unconditional` corollaries).
 -/
 namespace XPathV.Theorems.C11
 open XPathV XPathV.Model XPathV.Facts XPathV.PathSem XPathV.PredSem XPathV.UnionSem NumAlg
@@ -36,6 +37,21 @@ theorem C11_main {d : Doc} (wf : WF d) (cfg : ECfg) (hns : cfg.nsIface = true) (
       nsU.Nodup ∧ (∀ x, x ∈ nsU ↔ x ∈ nsA ∨ x ∈ nsB) ∧ (∀ x, x ∈ refs out ↔ x ∈ nsU) :=
   UnionSem.C11_main wf cfg hns hinj regexOk limit A B hA hB fl st o hb c hc
 
+/-- `C11_main` without the `HashInj` hypothesis (it is a theorem now: `hashInj_holds`; the side
+condition left is "no element has two attributes with the same prefix, name and value") -/
+theorem C11_main_unconditional {d : Doc} (wf : WF d) (cfg : ECfg) (hns : cfg.nsIface = true) (hattr : AttrTriplesDistinct d)
+    (regexOk : RegexOk) (limit : Nat) (A B : Ast) (hA : Frag true A) (hB : Frag true B) (fl : Flags)
+    (st : BState) (o : BOut) (hb : build regexOk limit true false (.oper "|" A B) fl st = .ok o)
+    (c : Ref) (hc : validRef d c = true) :
+    ∃ out nsA gA nsB gB nsU,
+      sel (F := F) d cfg o.q c = .ok out ∧ (refs out).Nodup ∧
+      Spec.eval (F := F) d A ⟨c, 1, 1⟩ = .ok (.val (.nodes nsA) gA) ∧
+      Spec.eval (F := F) d B ⟨c, 1, 1⟩ = .ok (.val (.nodes nsB) gB) ∧
+      (∀ x, x ∈ refs out ↔ x ∈ nsA ∨ x ∈ nsB) ∧
+      Spec.eval (F := F) d (.oper "|" A B) ⟨c, 1, 1⟩ = .ok (.val (.nodes nsU) none) ∧
+      nsU.Nodup ∧ (∀ x, x ∈ nsU ↔ x ∈ nsA ∨ x ∈ nsB) ∧ (∀ x, x ∈ refs out ↔ x ∈ nsU) :=
+  C11_main wf cfg hns (PathSem.hashInj_holds wf hattr cfg) regexOk limit A B hA hB fl st o hb c hc
+
 /-- **n-ary**: `p₀ | p₁ | … | pₙ` (left-nested, as parsed): every node of some `pᵢ`, nothing else,
 each exactly once, on both sides -/
 theorem C11_nary {d : Doc} (wf : WF d) (cfg : ECfg) (hns : cfg.nsIface = true) (hinj : HashInj d cfg)
@@ -48,6 +64,20 @@ theorem C11_nary {d : Doc} (wf : WF d) (cfg : ECfg) (hns : cfg.nsIface = true) (
       (∀ x, x ∈ refs out ↔ ∃ q ∈ p :: ps, x ∈ nodesAt d F q c) ∧
       (∀ x, x ∈ ns ↔ ∃ q ∈ p :: ps, x ∈ nodesAt d F q c) :=
   UnionSem.C11_nary wf cfg hns hinj regexOk limit p ps hp hps hne st o hb c hc
+
+/-- `C11_nary` without the `HashInj` hypothesis (it is a theorem now: `hashInj_holds`; the side
+condition left is "no element has two attributes with the same prefix, name and value") -/
+theorem C11_nary_unconditional {d : Doc} (wf : WF d) (cfg : ECfg) (hns : cfg.nsIface = true) (hattr : AttrTriplesDistinct d)
+    (regexOk : RegexOk) (limit : Nat) (p : Ast) (ps : List Ast) (hp : Frag true p)
+    (hps : ∀ q ∈ ps, Frag true q) (hne : ps ≠ []) (st : BState) (o : BOut)
+    (hb : build regexOk limit true false (unionOf p ps) {} st = .ok o)
+    (c : Ref) (hc : validRef d c = true) :
+    ∃ out ns g, sel (F := F) d cfg o.q c = .ok out ∧ (refs out).Nodup ∧
+      Spec.eval (F := F) d (unionOf p ps) ⟨c, 1, 1⟩ = .ok (.val (.nodes ns) g) ∧ ns.Nodup ∧
+      (∀ x, x ∈ refs out ↔ ∃ q ∈ p :: ps, x ∈ nodesAt d F q c) ∧
+      (∀ x, x ∈ ns ↔ ∃ q ∈ p :: ps, x ∈ nodesAt d F q c) :=
+  C11_nary wf cfg hns (PathSem.hashInj_holds wf hattr cfg) regexOk limit p ps hp hps hne st o hb c
+    hc
 
 /-- **sequence form `p/(s, t, …)`**: the tree the parser produces (`seqLoop_is_seqForm`) is built
 into a plan that yields exactly the nodes reached by some member step from some node of `p`, each
@@ -63,6 +93,21 @@ theorem C11_sequence {d : Doc} (wf : WF d) (cfg : ECfg) (hns : cfg.nsIface = tru
       (∀ x, x ∈ ns ↔ ∃ t ∈ s :: ss, ∃ n ∈ nodesAt d F p c, x ∈ nodesAt d F (stepOn .none t) n) ∧
       (ss ≠ [] → (refs out).Nodup ∧ ns.Nodup) :=
   UnionSem.C11_sequence wf cfg hns hinj regexOk limit p hp s ss hs hss st o hb c hc
+
+/-- `C11_sequence` without the `HashInj` hypothesis (it is a theorem now: `hashInj_holds`; the side
+condition left is "no element has two attributes with the same prefix, name and value") -/
+theorem C11_sequence_unconditional {d : Doc} (wf : WF d) (cfg : ECfg) (hns : cfg.nsIface = true) (hattr : AttrTriplesDistinct d)
+    (regexOk : RegexOk) (limit : Nat) (p : Ast) (hp : Frag true p) (s : SeqStep)
+    (ss : List SeqStep) (hs : StepOK s) (hss : ∀ t ∈ ss, StepOK t) (st : BState) (o : BOut)
+    (hb : build regexOk limit true false (seqForm p s ss) {} st = .ok o)
+    (c : Ref) (hc : validRef d c = true) :
+    ∃ out ns g, sel (F := F) d cfg o.q c = .ok out ∧
+      Spec.eval (F := F) d (seqForm p s ss) ⟨c, 1, 1⟩ = .ok (.val (.nodes ns) g) ∧
+      (∀ x, x ∈ refs out ↔ x ∈ ns) ∧
+      (∀ x, x ∈ ns ↔ ∃ t ∈ s :: ss, ∃ n ∈ nodesAt d F p c, x ∈ nodesAt d F (stepOn .none t) n) ∧
+      (ss ≠ [] → (refs out).Nodup ∧ ns.Nodup) :=
+  C11_sequence wf cfg hns (PathSem.hashInj_holds wf hattr cfg) regexOk limit p hp s ss hs hss st o
+    hb c hc
 
 /-- the parser side of the sequence form: along any run of comma-separated members the sequence
 loop returns `seqForm` -/
@@ -80,5 +125,12 @@ theorem identity_key_recipe_ok :
     Generated.hashKeyCases = ["AttributeNode,TextNode,CommentNode: writeKeyPart(&sb,n.Prefix()); writeKeyPart(&sb,n.LocalName()); writeKeyPart(&sb,n.Value())",
       "ElementNode: writeKeyPart(&sb,n.Prefix()); writeKeyPart(&sb,n.LocalName())"] ∧
     Generated.writeKeyPartSrc = "{sb.WriteString(strconv.Itoa(len(s)))sb.WriteByte(':')sb.WriteString(s)}" := ⟨rfl, rfl⟩
+
+/-- T0: node identity is the key string itself — `getNodeKey` writes the node type first and returns the buffer's
+string, and no table of `query.go` is keyed by a 64-bit number any more (the FNV-64a hash of the key used to be the
+identity: two bug-hunting agents constructed colliding names within a minute, §11.1) -/
+theorem identity_is_the_key_string :
+    Generated.nodeKeyHead = ["sb.WriteString(strconv.Itoa(int(n.NodeType())))", "sb.WriteByte(':')"] ∧
+    Generated.nodeKeyIsString = true := ⟨rfl, rfl⟩
 
 end XPathV.Theorems.C11
